@@ -92,6 +92,10 @@ Definition can_edit (x : target) : bool := has_perm EDIT x.
 Definition to_json_objects (objs : list nat) : option (list nat) :=
   if forallb (fun o => can_view (TObj o)) objs then Some objs else None.
 
+(* to_json([obj], include=[relationship]): the objects reached through the included relationship are serialised with it and go
+   through the same can_view test, whether they were already loaded or are loaded by to_json itself *)
+Definition to_json_include (related : nat -> list nat) (o : nat) : option (list nat) := to_json_objects (o :: related o).
+
 (* ---------------------------------------------------------------------------------------------
    the specification: the statement of C34 written directly *)
 
